@@ -138,7 +138,15 @@ def check_runtime_sampling(ctx, R="C19.runtime"):
     if not sim:
         raise AnalysisError("shape not recognised: Distribution.__new__ simulation branch")
     b = sim[0].body
-    txt = [unparse(s) for s in b]
+    # roles -> canonical names, so that the comparison below does not depend on what the locals are called
+    d_ = lib.local_from(fn, "super().__new__(cls)", what="new distribution object")
+    s_ = lib.local_from(fn, "veneer.simulation()", what="current simulation")
+    m_ = lib.local_from(fn, "DefaultIdentityDict()", what="fresh subsample map")
+    v_ = lib.locals_assigned(fn, lambda v: unparse(v) == f"{d_}.sample({m_})")
+    if len(v_) != 1:
+        raise AnalysisError("shape not recognised: the sampled value of Distribution.__new__")
+    ren = {d_: "dist", s_: "sim", m_: "subsamples", v_[0]: "value"}
+    txt = [lib.subst_names(s, ren) for s in b]
     need = ["dist.__init__(*args, **kwargs)", "subsamples = DefaultIdentityDict()", "subsamples[dist] = value", "sim.recordSampledValue(dist, subsamples)", "return value"]
     pos = []
     for n_ in need:
@@ -149,13 +157,15 @@ def check_runtime_sampling(ctx, R="C19.runtime"):
     else:
         ctx.ok(R, sim[0], "init -> fresh map -> sample or replay -> record -> return")
     iff = [s for s in b if isinstance(s, ast.If) and "replayCanContinue()" in unparse(s.test)]
-    if iff and unparse(iff[0].body[0]) == "value = sim.replaySampledValue(dist, subsamples)" and unparse(iff[0].orelse[0]) == "value = dist.sample(subsamples)":
+    neg = bool(iff) and isinstance(iff[0].test, ast.UnaryOp) and isinstance(iff[0].test.op, ast.Not)
+    br_replay, br_fresh = (iff[0].orelse, iff[0].body) if neg else (iff[0].body, iff[0].orelse) if iff else ([], [])
+    if iff and len(br_replay) >= 1 and len(br_fresh) >= 1 and lib.subst_names(br_replay[0], ren) == "value = sim.replaySampledValue(dist, subsamples)" and lib.subst_names(br_fresh[0], ren) == "value = dist.sample(subsamples)":
         ctx.ok(R, iff[0], "the value is sampled from the distribution itself unless a replay supplies it")
     else:
         ctx.finding(R, sim[0], "runtime sample source", "the run-time value is no longer `dist.sample(subsamples)` (or the replayed value)")
     # no path of the branch returns without recording
     rets = [r for r in ast.walk(sim[0]) if isinstance(r, ast.Return)]
-    rec_line = next((s.lineno for s in b if unparse(s) == "sim.recordSampledValue(dist, subsamples)"), None)
+    rec_line = next((s.lineno for s in b if lib.subst_names(s, ren) == "sim.recordSampledValue(dist, subsamples)"), None)
     if rec_line and all(r.lineno > rec_line for r in rets):
         ctx.ok(R, sim[0], "every return of the simulation branch comes after recordSampledValue")
     else:
